@@ -4,10 +4,10 @@
     The census objects come from Gen/CopyCensus_gen.v (regenerated from vmf.py / keyvalues.py on every run);
     the check discharges [copy_fresh_mutables census_X = true] and [copy_covers_fields census_X = true]
     per class as instance obligations, and [export_ok ... = true] for heaps exported from real objects. *)
-From Coq Require Import List PArith ZArith Bool String.
+From Coq Require Import List PArith ZArith Bool String FMapPositive.
 From SV Require Import SM.Store SM.StoreProofs SM.StoreCert SM.StoreCertProofs SM.StoreCopy SM.StoreCopyProofs
   SM.StoreExamples SM.KvAdd SM.KvAddProofs SM.StoreCopySrc SM.StoreCopySrcProofs SM.KvAddFresh SM.KvAddFreshProofs
-  SM.StoreCopyExport SM.StoreCopyExportProofs SM.StoreCopyFlow SM.StoreCopyFlowProofs SM.StoreCopyWholeProofs SM.StoreRowCert SM.StoreRowCertProofs SM.StoreExportCert SM.StoreExportCertProofs SM.OpPurity SM.OpPurityProofs SM.CollapseCensus SM.CollapseCensusProofs
+  SM.StoreCopyExport SM.StoreCopyExportProofs SM.StoreCopyFlow SM.StoreCopyFlowProofs SM.StoreCopyWholeProofs SM.StoreRowCert SM.StoreRowCertProofs SM.StoreExportCert SM.StoreExportCertProofs SM.StoreTypedLabels SM.StoreTypedLabelsProofs SM.StoreCondRow SM.StoreCondRowProofs SM.StorePickleState SM.StorePickleStateProofs SM.OpPurity SM.OpPurityProofs SM.CollapseCensus SM.CollapseCensusProofs
   Gen.CopyCensus_gen Gen.CopyExportReads_gen Gen.C09OpCensus_gen Gen.C09Collapse_gen.
 Import ListNotations.
 
@@ -546,3 +546,115 @@ Theorem c09_export_cert_not_vacuous :
   export_cert_ok (L 128%Z) [1; 3]%positive 1%positive 2%positive M 4 xc_census xc_sources xc_reads = false /\
   export_cert_ok (L 255%Z) [1; 3]%positive 1%positive 2%positive M 0 xc_census xc_sources xc_reads = false.
 Proof. cbv zeta. exact (conj export_cert_accepts (conj export_cert_rejects_changed_vector export_cert_rejects_unstable_depth)). Qed.
+
+(** ROUND 4 — THE CENSUS LABEL OF EVERY EXPORTED NODE IS DERIVED AND VALIDATED IN THE KERNEL.  The harness reports per
+    node only run-time facts: location, [type(o).__name__], the attribute names it read (in the order of the node's fields).
+    The label is the first label of [class_of_label] whose class is that type name; the names must be the field names
+    of that label's census, in census order, and the node must have that many fields. *)
+Definition masks_of_typed (tns : list typed_node) : list (loc * list bool) :=
+  masks_of_labels (labels_of_typed class_of_label tns).
+
+Theorem c09_typed_nodes_checked : forall l' tns,
+  typed_nodes_ok all_census class_of_label l' tns = true ->
+  forall loc cls nms, In (loc, cls, nms) tns ->
+  exists lab c nd, label_of_type class_of_label cls = Some lab /\ tlookup lab all_census = Some c /\
+                   PositiveMap.find loc (mk_heap l') = Some nd /\
+                   nms = names c /\ List.length (nfields nd) = List.length c.
+Proof. exact (typed_nodes_ok_spec all_census class_of_label). Qed.
+
+(** The label found for a type name is a label of that class. *)
+Theorem c09_label_of_type_is_of_class : forall cls lab,
+  label_of_type class_of_label cls = Some lab -> In (lab, cls) class_of_label.
+Proof. exact (label_of_type_class class_of_label). Qed.
+
+(** Instance obligation [census_labels_of_a_class_agree]: all labels of one class (EntityFixup_copy_values / _copy /
+    _deepcopy, FixupValue_in_* ...) list the same fields with the same masked-ness, so each of them gives the export mask
+    of the first label of the class — deriving the label from the type name alone loses nothing. *)
+Theorem c09_labels_of_a_class_same_mask : forall lab cls c,
+  labels_agree all_census class_of_label = true ->
+  tlookup lab class_of_label = Some cls -> tlookup lab all_census = Some c ->
+  exists l0 c0, label_of_type class_of_label cls = Some l0 /\ tlookup l0 all_census = Some c0 /\
+                forall reads, obs_mask c reads = obs_mask c0 reads.
+Proof. exact (labels_agree_same_mask all_census class_of_label). Qed.
+
+(** Accepts the right names; rejects names in another order, an unknown type name, a node with another number of
+    fields; two labels of one class that disagree are rejected by [labels_agree]. *)
+Theorem c09_typed_labels_not_vacuous :
+  labels_agree tl_all tl_col = true /\
+  typed_nodes_ok tl_all tl_col tl_heap [(1%positive, "T"%string, ["id"%string; "pos"%string])] = true /\
+  typed_nodes_ok tl_all tl_col tl_heap [(1%positive, "T"%string, ["pos"%string; "id"%string])] = false /\
+  typed_nodes_ok tl_all tl_col tl_heap [(1%positive, "U"%string, ["id"%string; "pos"%string])] = false /\
+  typed_nodes_ok tl_all tl_col tl_heap [(2%positive, "T"%string, ["id"%string; "pos"%string])] = false /\
+  labels_agree [("T_copy"%string, tl_census_a); ("T_deepcopy"%string, tl_census_bad)] tl_col = false.
+Proof. exact typed_labels_example. Qed.
+
+(** ROUND 4 — CONDITIONAL ROWS.  A field that copy() builds by a conditional (`A if t else B`, `x and B`, `x or B`, an
+    if/else storing the same field) gets the WEAKER of the two branch rows.  The joined row is fresh exactly when both
+    branches are — so an accepted census is right whichever branch an input takes, and a rejected one has an input that
+    takes a branch that is not fresh. *)
+Theorem c09_cond_row_fresh_iff : forall k a b, how_carries a = true -> how_carries b = true ->
+  field_fresh k (how_join a b) = field_fresh k a && field_fresh k b.
+Proof. exact join_fresh. Qed.
+
+Theorem c09_cond_row_sound : forall k a b, how_carries a = true -> how_carries b = true ->
+  field_fresh k (how_join a b) = true -> forall t : bool, field_fresh k (if t then a else b) = true.
+Proof. exact join_fresh_sound. Qed.
+
+Theorem c09_cond_row_complete : forall k a b, how_carries a = true -> how_carries b = true ->
+  field_fresh k (how_join a b) = false -> exists t : bool, field_fresh k (if t then a else b) = false.
+Proof. exact join_fresh_complete. Qed.
+
+(** Instance obligation [conditional_rows_are_joins] over the generated [cond_rows]: the translator's choice of the
+    weaker branch is re-computed in the kernel against the generated census. *)
+Theorem c09_cond_rows_checked : forall rows, cond_rows_ok all_census rows = true ->
+  forall lab f a b, In (lab, f, a, b) rows ->
+  exists c k, clookup lab all_census = Some c /\ In (f, k, how_join a b) c /\
+              (field_fresh k (how_join a b) = true -> forall t : bool, field_fresh k (if t then a else b) = true).
+Proof. exact (cond_rows_ok_spec all_census). Qed.
+
+(** SHARED WHEN EMPTY (shape of seeded fault c09_6): a copy that shares the original's container only because it is
+    empty is observed equal to the original at every depth, yet the frame premise fails and one store through the copy
+    (filling the list) changes what the original exports. *)
+Theorem c09_shared_when_empty_refuted :
+  (forall n, unfold n empty_shared_heap (VRef 2%positive) = unfold n empty_shared_heap (VRef 1%positive)) /\
+  ~ sep empty_shared_heap 1%positive [2%positive] /\
+  exists h', steps (empty_shared_heap, [2%positive]) [MStore 3%positive [VAtom 7%Z]] (h', [2%positive]) /\
+             unfold 2 h' (VRef 1%positive) <> unfold 2 empty_shared_heap (VRef 1%positive).
+Proof. exact shared_when_empty. Qed.
+
+Theorem c09_cond_rows_not_vacuous :
+  cond_rows_ok [("Keyvalues"%string, cr_census)] [("Keyvalues"%string, "_value"%string, HDeep, HShare)] = true /\
+  copy_fresh_mutables cr_census = false /\
+  cond_rows_ok [("Keyvalues"%string, cr_census_claims_deep)] [("Keyvalues"%string, "_value"%string, HDeep, HShare)] = false.
+Proof. exact cond_rows_example. Qed.
+
+(** ROUND 4 — GUARDS OF POST-CONSTRUCTION STORES.  [new.f = ...] under [if g(self.f):] carries every value iff the guard
+    fails only on the constructor default; [is not None] does, bare truthiness loses exactly the EMPTY container (the
+    translator records such a test of the stored field itself as a guard flow: [copy_args_lossless] names the field). *)
+Theorem c09_guarded_store_complete_iff : forall A (g : A -> bool) (d : A),
+  (forall v, guarded_store g d v = v) <-> (forall v, g v = false -> v = d).
+Proof. exact guarded_store_complete_iff. Qed.
+
+Theorem c09_is_not_none_guard_complete : forall v : optlist, guarded_store g_is_not_none None v = v.
+Proof. exact is_not_none_guard_complete. Qed.
+
+Theorem c09_truthy_guard_loses_empty_refuted :
+  guarded_store g_truthy None (Some []) <> Some [] /\
+  forall v : optlist, v <> Some [] -> guarded_store g_truthy None v = v.
+Proof. exact truthy_guard_loses_empty. Qed.
+
+(** ROUND 4 — THE PICKLING PAIR.  copy.copy / copy.deepcopy / pickle of an Output hand the tuple built by [__getstate__] to
+    [__setstate__].  [output_state_put] / [output_state_get] (generated): the field each position is built from / unpacked
+    into.  Instance obligation [pickle_state_positions_match:Output] = [state_ok (names census_Output) put get]: then every
+    data field comes back with its own value.  (Which originals take the SHORT form — optional parts at their defaults — and
+    that the restored defaults equal those originals' values is only searched: boundary probe.) *)
+Theorem c09_pickle_state_roundtrip : forall fields put get, state_ok fields put get = true ->
+  forall obj f, In f fields -> alookup f (setstate get (getstate obj put)) = Some (alookup f obj).
+Proof. exact state_roundtrip. Qed.
+
+Theorem c09_pickle_state_swap_refuted :
+  state_ok ps_fields ps_fields ps_fields = true /\
+  state_ok ps_fields ps_fields ["inst_in"%string; "inst_out"%string; "delay"%string] = false /\
+  alookup "inst_out"%string (setstate ["inst_in"%string; "inst_out"%string; "delay"%string] (getstate ps_obj ps_fields)) = Some (Some 2%Z) /\
+  state_ok ps_fields ["inst_out"%string; "delay"%string] ["inst_out"%string; "delay"%string] = false.
+Proof. exact state_swap_refuted. Qed.
